@@ -444,6 +444,17 @@ class SymClient(Client):
             if ft is not None:
                 kwargs = tuple(kwargs) + (('=', ft),)     # the token this call's result is known by
             s = self.emit(s, Event(kind, callee_txt, args, kwargs, tuple(snap), self.site_line or call.lineno, s.conds, self.f.key))
+        if callee_txt == 'setattr' and len(call.args) == 3 and not call.keywords:
+            nm = self.term(call.args[1], s)
+            try:
+                ne = ast.parse(nm, mode='eval').body
+            except SyntaxError:
+                ne = None
+            if isinstance(ne, ast.Constant) and isinstance(ne.value, str) and ne.value.isidentifier():
+                tgt = ast.Attribute(value=call.args[0], attr=ne.value, ctx=ast.Store())
+                ast.copy_location(tgt, call)
+                ast.fix_missing_locations(tgt)
+                return [self.assign(tgt, call.args[2], self.value_term(call.args[2], s), s)]
         r = self._resolve_callee(call.func, s)
         if isinstance(r, tuple) and r and r[0] == 'dispatch' and self.depth < 6:
             # a call through a table of handlers: each entry is a possible callee, under the condition that selects it
@@ -793,6 +804,41 @@ class SymClient(Client):
     def loop_exhausted(self, st: ast.For, s: SymState):
         return [s]
 
+    UNROLL_MAX = 24
+
+    def unroll_items(self, st: ast.For, s: SymState):
+        """a for loop over a tuple / list display (after substitution) or over a class / module constant that folds to a
+        short sequence of constants: its items as terms"""
+        if getattr(self, 'no_unroll', False):
+            return None
+        t = self.term(st.iter, s)
+        try:
+            e = ast.parse(t, mode='eval').body
+        except SyntaxError:
+            return None
+        if isinstance(e, (ast.Tuple, ast.List)) and not any(isinstance(x, ast.Starred) for x in e.elts):
+            if len(e.elts) > self.UNROLL_MAX:
+                return None
+            return [ast.unparse(x) for x in e.elts]
+        if isinstance(e, (ast.Name, ast.Attribute)):
+            ch = attr_chain(e)
+            if ch and ch[0] in ('self', 'cls') and self.cls is not None and len(ch) == 2:
+                # a class attribute read through the instance: only constant if no subclass re-defines it
+                if any(ch[1] in k.attrs for k in self.repo.subclasses(self.cls) if k.key != self.cls.key):
+                    return None
+            try:
+                v = self.repo.fold(e, self.mod, self.cls)
+            except NotConst:
+                return None
+            except Exception:
+                return None
+            if isinstance(v, (tuple, list)) and len(v) <= self.UNROLL_MAX and all(_plain_const(x) for x in v):
+                return [repr(x) for x in v]
+        return None
+
+    def bind_item(self, st: ast.For, s: SymState, item: str):
+        return [self.assign(st.target, None, item, s)]
+
     def loop_enter(self, st, s: SymState):
         mark = Event('loop', 'L%d' % st.lineno, (str(len(s.conds)),), (), (), st.lineno, s.conds, self.f.key)
         self.log.append((mark, s))
@@ -863,6 +909,14 @@ class SymClient(Client):
 
     def nested_def(self, st, s):
         return [s]
+
+
+def _plain_const(x) -> bool:
+    if isinstance(x, (int, str, bytes, float, bool)) or x is None:
+        return True
+    if isinstance(x, (tuple, list)):
+        return all(_plain_const(y) for y in x)
+    return False
 
 
 def _never_none(term: str) -> bool:
